@@ -127,7 +127,7 @@ CLAIMS = {
     "C16": (
         'exploration',
         'exhaustive grid (full Cartesian products) over waveform classes x durations x parameter values with oracles written from the class docstrings',
-        '1.7k (quick) / 3.6k (thorough) cases, each running 10-200 assertions: every waveform class x durations {1,2,3,4,5,10,11,100,101} x parameters {-2,-1e-3,0,1e-3,1,20} (all pairs for ramps), interpolated waveforms with 2-4 points, explicit times incl. near-coincident ones and both interpolators, composite and custom waveforms: sample count and finiteness, documented values, window area / sign / symmetry, change_duration to two other durations, scaling by {-2,-1,0.5,1,3}, division incl. by zero, negation, equality vs sample-wise closeness on both sides of the numpy.isclose tolerance (one sample / all / positive / negative / alternating samples moved by 0.4 and 3 tolerances; waveforms of both signs whose integral cancels), every index and slice for durations <= 5; from_max_val for area x max_val x beta of both signs (never exceeds, exact area, one ns shorter would exceed for windows > 16 ns), and max_val placed just above / below the peak of the d-ns window for EVERY duration d = 17..259 (thorough ..699); pulses with phases {-7,-pi,-1e-12,0,1,2pi,7,100}; invalid pulses refused; ArbitraryPhase reproduces 6 phase-waveform kinds x 6 durations at every sample through phase_modulation. Object histories: every sequence of <= 3 (thorough 4) steps over 10 uses / caller-side edits (constructor buffers, arrays returned by samples / modulated_samples / pulse waveforms) on 6 waveform objects vs a pristine object, compared on the object itself and on what is derived from it afterwards (change_duration, scaling, negation) (6.7k histories). All-zero samples / values through every waveform class. Phases at the floats just below / at / just above k x 2 pi (k = 1..129, thorough 1..3000), both signs, and magnitudes up to 2^70 through 5 constructor arguments: stored value inside [0, 2 pi) and equal to the exact rational remainder.',
+        '1.7k (quick) / 3.6k (thorough) cases, each running 10-200 assertions: every waveform class x durations {1,2,3,4,5,10,11,100,101} x parameters {-2,-1e-3,0,1e-3,1,20} (all pairs for ramps), interpolated waveforms with 2-4 points, explicit times incl. near-coincident ones and both interpolators, composite and custom waveforms: sample count and finiteness, documented values, window area / sign / symmetry, change_duration to two other durations, scaling by {-2,-1,0.5,1,3}, division incl. by zero, negation, equality vs sample-wise closeness on both sides of the numpy.isclose tolerance (one sample / all / positive / negative / alternating samples moved by 0.4 and 3 tolerances; waveforms of both signs whose integral cancels), every index and slice for durations <= 5; from_max_val for area x max_val x beta of both signs (never exceeds, exact area, one ns shorter would exceed for windows > 16 ns), and max_val placed just above / below the peak of the d-ns window for EVERY duration d = 17..259 (thorough ..699); pulses with phases {-7,-pi,-1e-12,0,1,2pi,7,100}; invalid pulses refused; ArbitraryPhase reproduces 6 phase-waveform kinds x 6 durations at every sample through phase_modulation. Object histories: every sequence of <= 3 (thorough 4) steps over 10 uses / caller-side edits (constructor buffers, arrays returned by samples / modulated_samples / pulse waveforms) on 6 waveform objects vs a pristine object, compared on the object itself and on what is derived from it afterwards (change_duration, scaling, negation) (6.7k histories). All-zero samples / values through every waveform class. Phases at the floats just below / at / just above k x 2 pi (k = 1..129, thorough 1..3000), both signs, and magnitudes up to 2^70 through 5 constructor arguments: stored value inside [0, 2 pi) and equal to the exact rational remainder. Ramps start exactly at their start value and never leave [start, stop] (exact comparisons) for every duration 2..80 (thorough ..400) x 6 non-dyadic end values x rising / falling x from 0 / from an offset.',
         "Grid values only; interpolated waveforms whose points coincide after rounding are a don't-care class.",
         'DESIGN.md §3 C16',
     ),
@@ -152,7 +152,7 @@ CLAIMS = {
     "C12": (
         'exploration',
         'exhaustive boundary grid of devices x registers / layouts with an exact rational-arithmetic oracle',
-        '3461 cases: 16 devices {dimensions} x {max atoms} x {min distance} x {max radius} x 213 registers (one pair at d-1e-3, d-5e-7, d, d+1e-3, 0, 1e-7, 2e-6 along x and along a 3-4-5 direction with the violating pair at every index position, atoms at radius R-1e-3, R, R+1e-3, counts max / max+1, 3D registers, every atom order) through validate_register and Sequence(); expected accept / refuse and the exact offending pairs / atoms from Fractions; layout-based registers for fillings {0.5,1,0.4,0.45,0.57,0.35,0.29,0.58,0.07,0.7} x trap bounds x trap and atom counts around the limit (incl. exactly the maximum number of traps and products that are integers only in exact arithmetic); the atom-number limit on registers that come from a valid layout; automatic layouts on a physical device and max_connectivity registers must be accepted by their device (spacings within 1e-3 .. 5e-7 of the minimum distance on both sides); device construction (+ specs / docs rendering) for each optional parameter None / valid / boundary / invalid. Registers that already carry a foreign layout (too few / too many traps, beyond the radius, too dense, over-filled) through with_automatic_layout. Caller edits of the objects a layout hands out (traps_dict, coords, sorted_coords) x 3 geometries x 4 edits: verdicts of validate_layout / validate_register / Sequence / define_register before and after.',
+        '3461 cases: 16 devices {dimensions} x {max atoms} x {min distance} x {max radius} x 213 registers (one pair at d-1e-3, d-5e-7, d, d+1e-3, 0, 1e-7, 2e-6 along x and along a 3-4-5 direction with the violating pair at every index position, atoms at radius R-1e-3, R, R+1e-3, counts max / max+1, 3D registers, every atom order) through validate_register and Sequence(); expected accept / refuse and the exact offending pairs / atoms from Fractions; layout-based registers for fillings {0.5,1,0.4,0.45,0.57,0.35,0.29,0.58,0.07,0.7} x trap bounds x trap and atom counts around the limit (incl. exactly the maximum number of traps and products that are integers only in exact arithmetic); the atom-number limit on registers that come from a valid layout; automatic layouts on a physical device and max_connectivity registers must be accepted by their device (spacings within 1e-3 .. 5e-7 of the minimum distance on both sides); device construction (+ specs / docs rendering) for each optional parameter None / valid / boundary / invalid. Registers that already carry a foreign layout (too few / too many traps, beyond the radius, too dense, over-filled) through with_automatic_layout. Caller edits of the objects a layout hands out (traps_dict, coords, sorted_coords) x 3 geometries x 4 edits: verdicts of validate_layout / validate_register / Sequence / define_register before and after. Mappable registers: 5 (filling, trap count) pairs x declared ids at / below capacity x mapped ids {1, n-1, n} x max_atom_num {n-1, n, n+1, none} x first / last traps: build(qubits=...) is accepted exactly when the built register fits the device.',
         "Don't-care bands: distances within 1e-6 below the minimum, radii within 1e-14 relative of the maximum.",
         'DESIGN.md §3 C12',
     ),
@@ -187,7 +187,7 @@ CLAIMS = {
     "C17": (
         'exploration',
         'exhaustive grids per class (optional fields default / non-default, every subset of noise types) with == and deep field-by-field comparison after the JSON round trip, plus every construction/decoding order of three instances per class with deep snapshots of the earlier ones',
-        '704 (quick) cases: 190+ noise models (every subset of the 7 noise types through each activating parameter variant, leakage) - active types exactly those set, abstract round trip equal, NoiseModel -> SimConfig -> NoiseModel preserves types and every relevant parameter; ~400 virtual devices (12 optional fields: all singles, pairs, all) x 5 channel sets (EOM with every optional field non-default, EOM controlled beams in every selection and order, DMM, default noise model, custom ids, channels / DMMs listed in reverse order) + 6 physical variants; registers 2D/3D x 6 atom orders x 3 id sets x with/without layout, layouts, detuning maps with traps in all 24 orders through a sequence; 135 emulation configs (observable sets x evaluation times x initial states x noise models) incl. operators with complex coefficients; aliasing for StateRepr / NoiseModel / VirtualDevice / Register in all 6 orders. Registers, layouts and device layouts with negative-zero / tiny negative coordinates. Physical devices whose calibrated layouts share a slug, have no slug, or list one layout twice. Effective-noise rates of exactly 0; every noise type inside emulation configurations. Boolean options of a configuration given as numpy booleans / 0 / 1. Results whose evaluation times are not short decimals (k/3, k/7, full grids) through to_abstract_repr / from_abstract_repr. Layouts with the same traps and different slugs (and three distinct layouts) through the public layout codec in every order.',
+        '704 (quick) cases: 190+ noise models (every subset of the 7 noise types through each activating parameter variant, leakage) - active types exactly those set, abstract round trip equal, NoiseModel -> SimConfig -> NoiseModel preserves types and every relevant parameter; ~400 virtual devices (12 optional fields: all singles, pairs, all) x 5 channel sets (EOM with every optional field non-default, EOM controlled beams in every selection and order, DMM, default noise model, custom ids, channels / DMMs listed in reverse order) + 6 physical variants; registers 2D/3D x 6 atom orders x 3 id sets x with/without layout, layouts, detuning maps with traps in all 24 orders through a sequence; 135 emulation configs (observable sets x evaluation times x initial states x noise models) incl. operators with complex coefficients; aliasing for StateRepr / NoiseModel / VirtualDevice / Register in all 6 orders. Registers, layouts and device layouts with negative-zero / tiny negative coordinates. Physical devices whose calibrated layouts share a slug, have no slug, or list one layout twice. Effective-noise rates of exactly 0; every noise type inside emulation configurations. Boolean options of a configuration given as numpy booleans / 0 / 1. Results whose evaluation times are not short decimals (k/3, k/7, full grids) through to_abstract_repr / from_abstract_repr. Layouts with the same traps and different slugs (and three distinct layouts) through the public layout codec in every order. Registers filling every trap of their layout, all but one, a third, and one atom on a one-trap layout (2D / 3D): layout, slug, trap table and trap ids survive.',
         'Fields excluded from == by the dataclass (short_description) are not compared; layout subclasses compared by traps+slug.',
         'DESIGN.md §3 C17',
     ),
